@@ -392,3 +392,54 @@ func vRunReplay(name string) (failures []string, panicMsg string, stop string) {
 	h()
 	return
 }
+
+// vIdentical: cheap syntactic identity (never forks under the engine); natively vSame.
+func vIdentical(a, b interface{}) bool { return vSame(a, b) }
+
+// vSameList: ordered comparison with vSame.
+func vSameList(got, want []interface{}) bool {
+	if len(got) != len(want) {
+		return false
+	}
+	for i := range got {
+		if !vSame(got[i], want[i]) {
+			return false
+		}
+	}
+	return true
+}
+
+// vSameMultiset: multiset comparison; identical elements are cancelled first (sound by
+// the cancellation law), the rest is matched greedily by value (vSame is an equivalence).
+func vSameMultiset(got, want []interface{}) bool {
+	if len(got) != len(want) {
+		return false
+	}
+	usedG := make([]bool, len(got))
+	usedW := make([]bool, len(want))
+	for i := range got {
+		for j := range want {
+			if !usedW[j] && vIdentical(got[i], want[j]) {
+				usedG[i], usedW[j] = true, true
+				break
+			}
+		}
+	}
+	for i := range got {
+		if usedG[i] {
+			continue
+		}
+		found := false
+		for j := range want {
+			if !usedW[j] && vSame(got[i], want[j]) {
+				usedW[j] = true
+				found = true
+				break
+			}
+		}
+		if !found {
+			return false
+		}
+	}
+	return true
+}
